@@ -338,6 +338,8 @@ func (fg *FuncGen) call(v *ssa.Call, c *ssa.CallCommon, instr ssa.Instruction) {
 			return
 		}
 		fg.callsExternalUnmodelled[key] = true
+		// effects of a function without any contract are unknown: not acceptable on an API path (C06, C07)
+		fg.obl("ext", "ext."+smtIdent(key), v.Pos(), []string{"C06", "C07"}, "false", "call to "+key+", which has no contract (its effects on shared state are unknown)")
 	}
 	fg.siteAsserts(v, callee, args)
 	pre := fg.st.Copy()
@@ -373,6 +375,16 @@ func (fg *FuncGen) call(v *ssa.Call, c *ssa.CallCommon, instr ssa.Instruction) {
 	assigned := map[string]string{} // family -> ref term
 	if con != nil {
 		for _, a := range con.Assigns {
+			if strings.HasPrefix(a, "elems:") {
+				if t, ok := bind[a[6:]]; ok && t.Sort == "Slice" {
+					if sl, ok2 := t.T.Underlying().(*types.Slice); ok2 {
+						f := fg.g.SeqFamily(fg.g.SortOf(sl.Elem()))
+						assigned[f] = "(sref " + t.S + ")"
+						eff[f] = true
+					}
+				}
+				continue
+			}
 			name := strings.TrimPrefix(a, "*")
 			if i := strings.IndexAny(name, ".@"); i > 0 {
 				name = name[:i]
@@ -407,8 +419,8 @@ func (fg *FuncGen) call(v *ssa.Call, c *ssa.CallCommon, instr ssa.Instruction) {
 			fg.emit("(assert (forall ((r Int)) (! (=> (and (< r %s) (not (= r %s))) (= (select %s r) (select %s r))) :pattern ((select %s r)))))", wmBefore, ref, sym, before, sym)
 		} else {
 			fg.emit("(assert (forall ((r Int)) (! (=> (< r %s) (= (select %s r) (select %s r))) :pattern ((select %s r)))))", wmBefore, sym, before, sym)
-			if f == "Q_Val" {
-				fg.emit("(assert (forall ((s Slice) (i Int)) (! (=> (< (sref s) %s) (= (gat %s s i) (gat %s s i))) :pattern ((gat %s s i)))))", wmBefore, sym, before, sym)
+			if gf := fg.g.gatOfFamily(f); gf != "" {
+				fg.emit("(assert (forall ((s Slice) (i Int)) (! (=> (< (sref s) %s) (= (%s %s s i) (%s %s s i))) :pattern ((%s %s s i)))))", wmBefore, gf, sym, gf, before, gf, sym)
 			}
 		}
 	}
@@ -443,6 +455,15 @@ func (fg *FuncGen) call(v *ssa.Call, c *ssa.CallCommon, instr ssa.Instruction) {
 			if t, ok := skolem[name]; ok {
 				return t, true
 			}
+			if strings.HasPrefix(name, "call") && len(name) > 4 && name[4] >= '0' && name[4] <= '9' {
+				srt := "Val"
+				if strings.HasSuffix(name, "e") {
+					srt = "Iface"
+				}
+				t := fg.declareTmp("sk_"+name, srt, nil)
+				skolem[name] = t
+				return t, true
+			}
 			if strings.HasPrefix(name, "log") {
 				srt := "(Array Int Val)"
 				if strings.HasSuffix(name, "e") {
@@ -464,9 +485,12 @@ func (fg *FuncGen) call(v *ssa.Call, c *ssa.CallCommon, instr ssa.Instruction) {
 		}
 		if con.Fresh {
 			for _, r := range rs {
-				t := env.call(&Expr{Op: "call", Name: "fresh", Args: []*Expr{{Op: "var", Name: "$r"}}})
-				_ = t
-				_ = r
+				switch r.Sort {
+				case "Slice":
+					fg.assume("(or (= (scap " + r.S + ") 0) (>= (sref " + r.S + ") " + wmBefore + "))")
+				case "Int":
+					fg.assume("(>= " + r.S + " " + wmBefore + ")")
+				}
 			}
 		}
 	}
@@ -704,9 +728,8 @@ func (fg *FuncGen) appendOp(v *ssa.Call, c *ssa.CallCommon) {
 	ref := fg.alloc(v.Type())
 	sym := fg.havocFam(fg.st, f)
 	fg.emit("(assert (forall ((r Int)) (! (=> (not (= r %s)) (= (select %s r) (select %s r))) :pattern ((select %s r)))))", ref, sym, before, sym)
-	if es == "Val" {
-		fg.emit("(assert (forall ((s Slice) (i Int)) (! (=> (not (= (sref s) %s)) (= (gat %s s i) (gat %s s i))) :pattern ((gat %s s i)))))", ref, sym, before, sym)
-	}
+	gf := gatName(es)
+	fg.emit("(assert (forall ((s Slice) (i Int)) (! (=> (not (= (sref s) %s)) (= (%s %s s i) (%s %s s i))) :pattern ((%s %s s i)))))", ref, gf, sym, gf, before, gf, sym)
 	r := fg.declare(v)
 	fg.emit("(assert (and (= (sref %s) %s) (= (soff %s) 0) (= (slen %s) (+ (slen %s) (slen %s))) (>= (scap %s) (slen %s))))", r.S, ref, r.S, r.S, s.S, t.S, r.S, r.S)
 	// the appended part: expand when the length is a literal
@@ -718,28 +741,15 @@ func (fg *FuncGen) appendOp(v *ssa.Call, c *ssa.CallCommon) {
 			}
 		}
 	}
-	if es == "Val" {
-		fg.emit("(assert (forall ((i Int)) (! (=> (and (<= 0 i) (< i (slen %s))) (= (gat %s %s i) (gat %s %s i))) :pattern ((gat %s %s i)))))", s.S, sym, r.S, before, s.S, sym, r.S)
-		if n >= 0 && n <= 8 {
-			for i := 0; i < n; i++ {
-				fg.emit("(assert (= (gat %s %s (+ (slen %s) %d)) (gat %s %s %d)))", sym, r.S, s.S, i, before, t.S, i)
-			}
-		} else {
-			fg.emit("(assert (forall ((i Int)) (! (=> (and (<= 0 i) (< i (slen %s))) (= (gat %s %s (+ (slen %s) i)) (gat %s %s i))) :pattern ((gat %s %s i)))))", t.S, sym, r.S, s.S, before, t.S, before, t.S)
-			fg.emit("(assert (forall ((j Int)) (! (=> (and (<= (slen %s) j) (< j (+ (slen %s) (slen %s)))) (= (gat %s %s j) (gat %s %s (- j (slen %s))))) :pattern ((gat %s %s j)))))", s.S, s.S, t.S, sym, r.S, before, t.S, s.S, sym, r.S)
-			fg.emit("(assert (=> (< 0 (slen %s)) (= (gat %s %s (slen %s)) (gat %s %s 0))))", t.S, sym, r.S, s.S, before, t.S)
+	fg.emit("(assert (forall ((i Int)) (! (=> (and (<= 0 i) (< i (slen %s))) (= (%s %s %s i) (%s %s %s i))) :pattern ((%s %s %s i)))))", s.S, gf, sym, r.S, gf, before, s.S, gf, sym, r.S)
+	if n >= 0 && n <= 8 {
+		for i := 0; i < n; i++ {
+			fg.emit("(assert (= (%s %s %s (+ (slen %s) %d)) (%s %s %s %d)))", gf, sym, r.S, s.S, i, gf, before, t.S, i)
 		}
 	} else {
-		fg.emit("(assert (forall ((i Int)) (! (=> (and (<= 0 i) (< i (slen %s))) (= (select (select %s %s) i) (select (select %s (sref %s)) (+ (soff %s) i)))) :pattern ((select (select %s %s) i)))))",
-			s.S, sym, ref, before, s.S, s.S, sym, ref)
-		if n >= 0 && n <= 8 {
-			for i := 0; i < n; i++ {
-				fg.emit("(assert (= (select (select %s %s) (+ (slen %s) %d)) (select (select %s (sref %s)) (+ (soff %s) %d))))", sym, ref, s.S, i, before, t.S, t.S, i)
-			}
-		} else {
-			fg.emit("(assert (forall ((i Int)) (! (=> (and (<= 0 i) (< i (slen %s))) (= (select (select %s %s) (+ (slen %s) i)) (select (select %s (sref %s)) (+ (soff %s) i)))) :pattern ((select (select %s (sref %s)) (+ (soff %s) i))))))",
-				t.S, sym, ref, s.S, before, t.S, t.S, before, t.S, t.S)
-		}
+		fg.emit("(assert (forall ((i Int)) (! (=> (and (<= 0 i) (< i (slen %s))) (= (%s %s %s (+ (slen %s) i)) (%s %s %s i))) :pattern ((%s %s %s i)))))", t.S, gf, sym, r.S, s.S, gf, before, t.S, gf, before, t.S)
+		fg.emit("(assert (forall ((j Int)) (! (=> (and (<= (slen %s) j) (< j (+ (slen %s) (slen %s)))) (= (%s %s %s j) (%s %s %s (- j (slen %s))))) :pattern ((%s %s %s j)))))", s.S, s.S, t.S, gf, sym, r.S, gf, before, t.S, s.S, gf, sym, r.S)
+		fg.emit("(assert (=> (< 0 (slen %s)) (= (%s %s %s (slen %s)) (%s %s %s 0))))", t.S, gf, sym, r.S, s.S, gf, before, t.S)
 	}
 	fg.obl("safe.make", "", v.Pos(), safetyTags, fmt.Sprintf("(<= (+ (slen %s) (slen %s)) MaxInt)", s.S, t.S), "append: length in range")
 }
